@@ -256,43 +256,58 @@ fn c08_range_request_stream_step() {
 // ---------------------------------------------------------------------------
 // C08-1c: Pending from the transport leaves the request untouched
 // ---------------------------------------------------------------------------
-#[kani::proof]
-#[kani::unwind(5)]
-fn c08_range_request_pending_step() {
+fn pending_step(send_pending: bool, frag_pending: bool) {
     let offset: u64 = kani::any();
     let size: u64 = kani::any();
     kani::assume(offset < 8 && size >= 1 && size <= 5);
     unsafe {
-        reqwest::SEND_PENDING[0] = kani::any();
-        reqwest::FRAG_PENDING[0] = [kani::any(), false, false];
+        reqwest::SEND_PENDING[0] = send_pending;
+        reqwest::FRAG_PENDING[0] = [frag_pending, false, false];
         reqwest::FRAGS[0] = [2, 0, 0];
     }
     let mut req = HttpRangeRequest::new(builder(), offset, size).retry(1, Duration::from_secs(1));
     let mut cx = noop_cx();
+    // first poll: Pending, nothing changed
     let r = req.poll_read(&mut cx);
-    match r {
-        Poll::Pending => {
-            assert!(req.offset == offset && req.size == size && req.retry_count == 1);
-            assert!(unsafe { reqwest::SEND_PENDING[0] } || unsafe { reqwest::FRAG_PENDING[0][0] });
-            // polling again makes progress with the same request (no duplicate request)
-            let r2 = req.poll_read(&mut cx);
-            if let Poll::Ready(Some(Ok(item))) = r2 {
-                assert!(bytes_match(&item[..], &CONTENT[..], offset as usize));
-                assert!(n_requests() == 1);
-                std::mem::forget(item);
-            } else {
-                assert!(matches!(r2, Poll::Pending));
-                assert!(unsafe { reqwest::SEND_PENDING[0] } && unsafe { reqwest::FRAG_PENDING[0][0] });
-            }
-        }
+    assert!(matches!(r, Poll::Pending));
+    assert!(req.offset == offset && req.size == size && req.retry_count == 1);
+    // second poll: progress with the same request (no duplicate request) -- or the second Pending of `both`
+    let r2 = req.poll_read(&mut cx);
+    let r3 = if send_pending && frag_pending {
+        assert!(matches!(r2, Poll::Pending));
+        assert!(req.offset == offset && req.size == size && req.retry_count == 1);
+        req.poll_read(&mut cx)
+    } else {
+        r2
+    };
+    match r3 {
         Poll::Ready(Some(Ok(item))) => {
-            assert!(!unsafe { reqwest::SEND_PENDING[0] } && !unsafe { reqwest::FRAG_PENDING[0][0] });
+            assert!(bytes_match(&item[..], &CONTENT[..], offset as usize));
+            assert!(item.len() as u64 == if size < 2 { size } else { 2 });
+            assert!(n_requests() == 1);
+            assert!(req.offset == offset + item.len() as u64 && req.size == size - item.len() as u64);
+            kani::cover!(true);
             std::mem::forget(item);
         }
-        _ => assert!(false),
+        _ => assert!(false, "the pending request must deliver on the next poll"),
     }
-    kani::cover!(unsafe { reqwest::SEND_PENDING[0] });
+    assert!(unsafe { SLEEP_CALLS } == 0);
     std::mem::forget(req);
+}
+#[kani::proof]
+#[kani::unwind(5)]
+fn c08_range_request_pending_step_send() {
+    pending_step(true, false);
+}
+#[kani::proof]
+#[kani::unwind(5)]
+fn c08_range_request_pending_step_frag() {
+    pending_step(false, true);
+}
+#[kani::proof]
+#[kani::unwind(5)]
+fn c08_range_request_pending_step_both() {
+    pending_step(true, true);
 }
 
 // ---------------------------------------------------------------------------
